@@ -98,7 +98,7 @@ contract('IOManager._write_bytes_to_device',
          params={'self': 'obj:IOManager', 'data': 'bytes', 'adb_info': 'obj:AdbInfo'},
          variants=[{'data': 'bytes'}, {'data': 'bytearray'}],
          props=['C15', 'C02', 'C11', 'C06', 'C12'],
-         requires=[('C06', 'transport-owned', 'G.held_transport')],
+         requires=[('C06,C02', 'transport-owned', 'G.held_transport')],
          modifies=['G.wire', 'G.nwrites', 'G.peer_rx', 'G.short', 'G.now', 'G.cpu'],
          ensures=[('C15', 'peer-receives-every-byte-in-order', 'G.peer_rx == old(G.peer_rx) + data'),
                   ('C02,C15', 'writes-only-when-there-is-something-to-write', 'implies(len(data) == 0, G.nwrites == old(G.nwrites) and G.wire == old(G.wire))'),
@@ -129,7 +129,7 @@ contract('IOManager._send',
          params={'self': 'obj:IOManager', 'msg': 'obj:Msg', 'adb_info': 'obj:AdbInfo'},
          variants=[{'msg.data': 'bytes'}, {'msg.data': 'bytearray'}],
          props=['C02', 'C15', 'C11', 'C06', 'C12'],
-         requires=[WF_MSG, ('C06', 'transport-owned', 'G.held_transport')],
+         requires=[WF_MSG, ('C06,C02', 'transport-owned', 'G.held_transport')],
          modifies=['G.wire', 'G.nwrites', 'G.peer_rx', 'G.short', 'G.now', 'G.cpu'],
          ensures=[('C02,C15', 'peer-receives-header-then-payload-completely', 'G.peer_rx == old(G.peer_rx) + ' + FRAME),
                   ('C02', 'something-was-written', 'G.nwrites > old(G.nwrites)'),
